@@ -15,7 +15,7 @@ SHARD = 40
 CASE_TYPE = "case37"
 COQ_PRELUDE = "From MV Require Import Model.Tnet Model.SaveStream Corr.C36.\nFrom MV Require Import Corr.C37.\n"
 TRANSLATORS = ["flowreader_except", "connection_literals"]
-RULE = ("kinds: rotate 12% = the real Save addon with a strftime() save_stream_file (minute/second/day/directory patterns, optional filter, append mode) under a fake clock (save.datetime patched) whose ticks cross rotation boundaries between interleaved hooks of 2-5 flows of every type; after EVERY hook all stream files are re-read with FlowReader and must hold exactly the finished matching flows, in order, each complete; reconf 14% = the real Save addon driven through the real options manager: 3-10 events, save_stream_file changes to three openable paths (one needing mkdir), a directory and a path under a regular file (OptionsError + rollback), append/overwrite, switching off, pre-existing files, interleaved with finished flows of every type; after EVERY event all files are re-read (also a Coq case against Model/SaveStream.v); trunc-stub 34% = 1-4 small generated records (value trees with floats/UTF-8/nested dicts, occasionally a "
+RULE = ("kinds: rotate 12% = the real Save addon with a strftime() save_stream_file (minute/second/day/directory patterns, optional filter, append mode) under a fake clock (save.datetime patched) whose ticks cross rotation boundaries between interleaved hooks of 2-5 flows of every type; after EVERY hook all stream files are re-read with FlowReader and must hold exactly the finished matching flows, in order, each complete; reconf 14% = the real Save addon driven through the real options manager: 3-10 events, save_stream_file changes to three openable paths (one needing mkdir), a directory and a path under a regular file (OptionsError + rollback), append/overwrite, switching off, pre-existing files, COMBINED updates (file + filter in one options.update, valid '~all' / None / unparsable '~~') and filter-only updates, interleaved with finished flows of every type; after EVERY event all files are re-read (also a Coq case against Model/SaveStream.v); trunc-stub 34% = 1-4 small generated records (value trees with floats/UTF-8/nested dicts, occasionally a "
         "non-dict or a record on which from_state raises) read through the real FlowReader (from_state stubbed) at EVERY "
         "truncation offset; trunc-real 12% = files of 1-3 real flows of every type (generated field values) written by "
         "FlowWriter, every truncation offset through the real reader and real from_state (Coq side: boundaries +-2 and "
@@ -78,9 +78,14 @@ def gen(rng, n, tier):
                 q = rng.random()
                 if j == 0 and rng.chance(0.8) or q < 0.38:
                     # paths 0..2 can be opened, 3 is a directory, 4 has a regular file as parent
-                    evs.append(["set", {"append": rng.chance(0.35), "path": rng.choice([0, 0, 1, 1, 2, 3, 3, 4])}])
+                    ev = ["set", {"append": rng.chance(0.35), "path": rng.choice([0, 0, 1, 1, 2, 3, 3, 4])}]
+                    if j > 0 and rng.chance(0.45):   # COMBINED update: file + filter in one options.update
+                        ev.append(rng.choice(["bad", "bad", "bad", "ok", "ok", "off"]))
+                    evs.append(ev)
                 elif q < 0.45:
-                    evs.append(["set", None])
+                    evs.append(["set", None] + ([rng.choice(["bad", "ok"])] if rng.chance(0.3) else []))
+                elif q < 0.52:
+                    evs.append(["flt", rng.choice(["bad", "ok", "off"])])
                 else:
                     evs.append(["finish", nf])
                     nf += 1
@@ -343,6 +348,11 @@ def run_rotate(case):
 
 NPATHS = 5
 BAD_PATHS = [3, 4]
+FILTERS = {"ok": "~all", "off": None, "bad": "~~"}     # "~~" does not parse -> OptionsError
+
+
+def _ev_filter(ev):
+    return ev[2] if (ev[0] == "set" and len(ev) > 2) else (ev[1] if ev[0] == "flt" else None)
 
 
 def run_reconf(case):
@@ -374,10 +384,15 @@ def run_reconf(case):
             for ev in case["events"]:
                 raised, other = False, None
                 try:
-                    if ev[0] == "set":
-                        spec = None if ev[1] is None else ("+" if ev[1]["append"] else "") + paths[ev[1]["path"]]
+                    if ev[0] in ("set", "flt"):
+                        kw = {}
+                        if ev[0] == "set":
+                            kw["save_stream_file"] = None if ev[1] is None else ("+" if ev[1]["append"] else "") + paths[ev[1]["path"]]
+                        fl = ev[2] if (ev[0] == "set" and len(ev) > 2) else (ev[1] if ev[0] == "flt" else None)
+                        if fl:
+                            kw["save_stream_filter"] = FILTERS[fl]
                         try:
-                            tctx.options.update(save_stream_file=spec)
+                            tctx.options.update(**kw)      # ONE update, possibly file + filter together
                         except exceptions.OptionsError:
                             raised = True
                     else:
@@ -439,7 +454,11 @@ def reconf_reference(case):
     cur, exp = None, []
     for ev in case["events"]:
         raised = False
-        if ev[0] == "set":
+        if _ev_filter(ev) == "bad":
+            raised = True          # rejected as a whole: neither option changes, no file is touched
+        elif ev[0] == "flt":
+            pass
+        elif ev[0] == "set":
             if ev[1] is None:
                 cur = None
             elif cur is not None and cur["path"] == ev[1]["path"]:
@@ -489,13 +508,19 @@ def coq_case(case, obs):
             return None
         cl = lambda xs: clist([cnat(x) for x in xs], "nat")
         evs = []
+        cspec = lambda sp: "None" if sp is None else f"(Some {{| sp_append := {'true' if sp['append'] else 'false'}; sp_path := {cnat(sp['path'])} |}})"
+        cur = None        # the option value in force (a filter-only update re-sends it)
         for ev, st in zip(case["events"], obs["steps"]):
             if ev[0] == "finish":
                 e = f"Finish {cnat(ev[1])}"
-            elif ev[1] is None:
-                e = "SetOpt None"
             else:
-                e = f"SetOpt (Some {{| sp_append := {'true' if ev[1]['append'] else 'false'}; sp_path := {cnat(ev[1]['path'])} |}})"
+                target = ev[1] if ev[0] == "set" else cur
+                if _ev_filter(ev) == "bad":
+                    e = f"SetOptBadFilter {cspec(target)}"
+                else:
+                    e = f"SetOpt {cspec(target)}"
+                    if ev[0] == "set" and not st["raised"]:
+                        cur = target
             evs.append(f"({e}, ({'true' if st['raised'] else 'false'}, {clist([cl(x) for x in st['files']], '(list nat)')}))")
         init = clist([f"({cnat(p_)}, {cl(ids)})" for p_, ids in case["init"]], "(nat * list nat)")
         return f"SaveOps {cl(BAD_PATHS)} {init} {cnat(NPATHS)} {clist(evs)}"
@@ -626,6 +651,8 @@ def classify(case, obs):
     elif k == "reconf":
         tags += [f"reconf:rejected={min(sum(1 for st in obs['steps'] if st['raised']), 3)}",
                  f"reconf:sets={min(sum(1 for e in case['events'] if e[0] == 'set'), 5)}",
+                 f"reconf:combined-bad-filter={min(sum(1 for e in case['events'] if e[0] == 'set' and _ev_filter(e) == 'bad'), 2)}",
+                 f"reconf:filter-updates={min(sum(1 for e in case['events'] if _ev_filter(e)), 3)}",
                  f"reconf:finished={min(len(case['types']), 5)}", f"reconf:preexisting={len(case['init'])}"]
     elif k == "rotate":
         tags += [f"rotate:files={min(obs['nfiles'], 5)}", f"rotate:finished={min(obs['nfinished'], 5)}", f"rotate:filter={case['filter']}"]
